@@ -196,6 +196,18 @@ def explore(model, thunk, opts=None, max_paths=MAX_PATHS):
     import time as _time
     limit = (opts or {}).get('time_limit')
     deadline = (_time.time() + limit) if limit else None
+    from . import poly as _poly
+    outer_deadline = _poly.DEADLINE
+    _poly.DEADLINE = deadline if outer_deadline is None or (deadline is not None and deadline < outer_deadline) else outer_deadline
+    try:
+        return _explore(model, thunk, opts, max_paths, deadline)
+    finally:
+        _poly.DEADLINE = outer_deadline
+
+
+def _explore(model, thunk, opts, max_paths, deadline):
+    results = []
+    stack = [[]]
     while stack:
         script = stack.pop()
         tr = Trace(script)
